@@ -31,6 +31,8 @@ def resolve(doc):
 
 
 def explicit_wellformed(doc):
+    if "defaults" in doc:
+        return False
     """all fields present with the right kinds, so that validity.check_dict applies"""
     def num(x):
         return isinstance(x, (int, float)) and not isinstance(x, bool)
@@ -88,14 +90,15 @@ def run(chk):
         return chk.finish("proof", nobl, ndis, axioms, RULE)
     drv = wire.Driver()
     rng = random.Random(chk.seed + 3)
-    n = 300 if chk.tier == "quick" else 6000
+    n = 120 if chk.tier == "quick" else 4000
     made = 0
     while made < n:
         base = gen.gen_model(rng)
         if resolve(base)[0] != "ok":
             continue
         made += 1
-        muts = [gen.mutate_value(rng, base) for _ in range(8)] + [gen.mutate_structure(rng, base) for _ in range(6)]
+        muts = ([gen.mutate_value(rng, base) for _ in range(6)] + [gen.mutate_structure(rng, base) for _ in range(5)]
+                + gen.mutate_targeted(rng, base)[:40 if chk.tier == 'quick' else 400])
         for kind, m in muts:
             if kind == "noop":
                 continue
